@@ -71,6 +71,10 @@ pub enum Flavour
     ExclusiveWarn,
     /// Non-exclusive system all of whose parameters (including `Commands`) sit inside one `ParamSet`.
     InParamSet,
+    /// A user-side `CallbackSystem` inside `SystemCommandCallback::with(..)`, spawned with `spawn_system_command_from`; the callback
+    /// does "make sure it is initialised, then run" on every run. A user callback cannot invoke the injected cleanup (its `run` is
+    /// crate-private), so such a system is only ever run manually or by resource reactions (which carry no cleanup).
+    CustomCb,
 }
 
 /// How an instance comes into existence.
